@@ -738,8 +738,9 @@ def c18_final(F, T):
                 F.soft("C18:num_item_received-differs-from-items-absorbed@Sink", {"counter": n.stats["num_item_received"], "absorbed": len(got)})
             cyc = 0
             for r in got:
-                cyc = cyc + (r.hist[-1][1] - r.t_created)
                 o = r.obj
+                # creation time is the item's own stamp; it must lie at or before the instant the source released the item
+                cyc = cyc + (r.hist[-1][1] - o.timestamp_creation)
                 ts = [o.timestamp_creation]
                 if o.timestamp_node_entry is not None:
                     ts.append(o.timestamp_node_entry)
@@ -749,8 +750,8 @@ def c18_final(F, T):
                 for a, b in zip(ts, ts[1:]):
                     if ctx.lt(b, a):
                         F.soft("C18:item-timestamps-decrease-along-the-route", {"item": repr(o)})
-                if not ctx.eq(o.timestamp_creation, r.t_created):
-                    F.soft("C18:timestamp_creation-differs-from-the-instant-the-source-released-the-item", {"item": repr(o)})
+                if ctx.lt(r.t_created, o.timestamp_creation):
+                    F.soft("C18:timestamp_creation-later-than-the-instant-the-source-released-the-item", {"item": repr(o)})
             ctx.hit("C18:cycle-time-checked")
             if not ctx.eq(n.stats["total_cycle_time"], cyc):
                 F.soft("C18:total_cycle_time-differs-from-sum-of-reception-minus-creation@Sink", {})
